@@ -218,13 +218,14 @@ def runner_info(binp, cpu=None):
 
 class Case:
     """one self-contained history: ops start from an empty handle table"""
-    __slots__ = ("ops", "oracle", "tags", "name")
+    __slots__ = ("ops", "oracle", "tags", "name", "cons")
 
     def __init__(self, ops, oracle=None, tags=(), name=""):
         self.ops = list(ops)
         self.oracle = oracle          # callable(list_of_outputs) -> None | str (failure description)
         self.tags = tuple(tags)
         self.name = name
+        self.cons = None              # the constraints behind `oracle` (for shrinking)
 
     def key(self):
         return hashlib.sha1("\n".join(self.ops).encode()).hexdigest()
@@ -319,6 +320,68 @@ def run_model(cases, workdir, tag, cfgline="", shards=None, timeout=3600):
             if rc != 0:
                 bad.append((k, rc, err[-2000:]))
     return outs, bad
+
+
+def eval_cons(cons, ops, outs):
+    """evaluate builder constraints (see gen.B) on outputs; returns failure text or None"""
+    for c in cons:
+        if c[0] == "eq":
+            _, i, j, what = c
+            if i >= len(outs) or j >= len(outs) or outs[i] != outs[j]:
+                return what
+        elif c[0] == "ne":
+            _, i, j, what = c
+            if i < len(outs) and j < len(outs) and outs[i] == outs[j]:
+                return what
+        else:
+            _, i, val, what = c
+            if i >= len(outs) or outs[i] != val:
+                return what
+    return None
+
+
+def shrink_oracle_failure(binp, case, workdir, extra_args=(), budget=120):
+    """greedy op deletion for a case whose oracle fails on the real implementation: an op may go when
+    no constraint refers to it and some constraint still fails (with the same message) afterwards.
+    Only the native runner is used.  Returns (ops, outputs, message)."""
+    if not case.cons:
+        return None
+    ops = list(case.ops)
+    cons = [list(c) for c in case.cons]
+    outs, _ = run_real(binp, [Case(ops)], workdir, "shrink", extra_args=extra_args, shards=1)
+    msg = eval_cons(cons, ops, outs[0] or [])
+    if msg is None:
+        return None
+    # keep only the first failing constraint: a minimal witness needs just one
+    for c in cons:
+        if eval_cons([c], ops, outs[0] or []) is not None:
+            cons = [c]
+            break
+    tries = 0
+    i = len(ops) - 1
+    while i >= 0 and tries < budget:
+        refs = set()
+        for c in cons:
+            refs.add(c[1])
+            if c[0] in ("eq", "ne"):
+                refs.add(c[2])
+        if i in refs:
+            i -= 1
+            continue
+        cand_ops = ops[:i] + ops[i + 1:]
+        cand_cons = []
+        for c in cons:
+            c2 = list(c)
+            c2[1] = c[1] - (1 if c[1] > i else 0)
+            if c[0] in ("eq", "ne"):
+                c2[2] = c[2] - (1 if c[2] > i else 0)
+            cand_cons.append(c2)
+        o, _ = run_real(binp, [Case(cand_ops)], workdir, "shrink", extra_args=extra_args, shards=1)
+        tries += 1
+        if o[0] is not None and len(o[0]) >= len(cand_ops) and eval_cons(cand_cons, cand_ops, o[0]) is not None:
+            ops, cons, outs = cand_ops, cand_cons, o
+        i -= 1
+    return ops, outs[0], eval_cons(cons, ops, outs[0] or [])
 
 
 def first_diff(a, b):
